@@ -16,7 +16,7 @@ METHODS = {"fd": "MFd", "sys": "MSys", "tee-sys": "MTee", "no": "MNo"}
 def gen_seq(rng):
     seq = []
     for _ in range(rng.randint(2, 6)):
-        kind = rng.choice(["ok", "ok", "ok", "fail", "syntax", "cycle"])
+        kind = rng.choice(["ok", "ok", "ok", "fail", "syntax", "cycle", "cycle", "empty", "gen", "genfail"])
         kw = {"capture": rng.choice(list(METHODS))}
         if rng.random() < 0.2:
             kw["dry_run"] = True
@@ -35,6 +35,25 @@ def _model(flat):
                           "fun ms => let p0 := mkP 1 2 3 4 5 6 10 [] in let p := builds x_capture_stops ms p0 in "
                           "(N.eqb (fd0 p) 1 && N.eqb (fd1 p) 2 && N.eqb (fd2 p) 3, N.eqb (py_in p) 4 && N.eqb (py_out p) 5 && N.eqb (py_err p) 6, Nat.eqb (nfds p) 10)",
                           [[Raw(METHODS[b["kwargs"]["capture"]]) for b in s] for s in flat], shard=40)
+
+
+KIND_SRC = {"ok": "MOk 2 0", "fail": "MOk 1 0", "syntax": "MBroken", "cycle": "MOk 2 0", "decorated": "MOk 0 1",
+            "gen": "MOk 0 1", "genfail": "MOk 0 1"}
+
+
+def session_model(flat, res):
+    """Model/Session.v on the builds that reached the collection phase: per build what is collected."""
+    kinds = sorted(KIND_SRC)
+    src = "fun p => " + " ".join(f"if eqbP p [[{i}%N]] then {KIND_SRC[k]} else" for i, k in enumerate(kinds)) + " MBroken"
+    terms, keep = [], []
+    for s, r in zip(flat, res):
+        a = r["inproc"]
+        idx = [i for i, b in enumerate(a.get("builds", [])) if "raised" not in b and b.get("exit") != 2] if "error" not in a else []
+        keep.append(idx)
+        terms.append([([] if s[i]["kind"] == "empty" else [[[kinds.index(s[i]["kind"])]]]) for i in idx])
+    model = coq_eval_cases("c15s", "Base.Prelude Model.Clean Model.Collect Model.Session",
+                           f"fun bs => (run_builds (fun _ => false) ({src}) [] bs, fresh_builds (fun _ => false) ({src}) bs)", terms, shard=40)
+    return keep, model
 
 
 def run(out, tier, seed, proof):
@@ -56,14 +75,15 @@ def run(out, tier, seed, proof):
                            "fun ms => let p0 := mkP 1 2 3 4 5 6 10 [] in let p := builds x_capture_stops ms p0 in "
                            "(N.eqb (fd0 p) 1 && N.eqb (fd1 p) 2 && N.eqb (fd2 p) 3, N.eqb (py_in p) 4 && N.eqb (py_out p) 5 && N.eqb (py_err p) 6, Nat.eqb (nfds p) 10)",
                            [[Raw(METHODS[b["kwargs"]["capture"]]) for b in s] for s in flat], shard=40))
-    for s, r, m in zip(flat, res, model):
+    skeep, smodel = session_model(flat, res)
+    for si, (s, r, m) in enumerate(zip(flat, res, model)):
         out.case(s, nontrivial=len(s) > 1)
         a = r["inproc"]
         if "error" in a:
             out.disagreement("the in-process sequence did not complete", {"seq": s, "error": a["error"]})
             continue
         b0 = a["before"]
-        is_f11 = s[0]["kind"] == "decorated"
+        uses_task = ("decorated", "gen", "genfail")      # modules whose tasks exist only through @task
         fds_ok, py_ok, n_ok = m
         grown = []
         for i, b in enumerate(a["builds"]):
@@ -93,14 +113,24 @@ def run(out, tier, seed, proof):
                     out.disagreement("process state differs from the model", {"seq": s, "build": i, "problems": probs})
         # the number of open descriptors must not grow with the number of builds (one database
         # connection of the current engine stays open; it is replaced, not accumulated)
-        if len(grown) >= 3 and grown[-1] > max(grown[0], 1) + 1 and grown == sorted(grown) and grown[-1] - grown[0] >= len(grown) - 1:
-            out.violation("open file descriptors grow with the number of builds", {"seq": s, "growth": grown})
+        if any(g > 1 for g in grown):
+            out.violation("open file descriptors accumulate over builds (more than the one database connection of the current engine)", {"seq": s, "growth": grown})
+            if n_ok:
+                out.disagreement("descriptor count differs from the model", {"seq": s, "growth": grown})
+        # what each build collected, against Model/Session.v
+        for j, i in enumerate(skeep[si]):
+            b = a["builds"][i]
+            mres = smodel[si][0][j]
+            want = ("err", 0) if any(x == "RError" for x in mres) else ("ok", sum(int(x[1]) for x in mres if x != "RError"))
+            got = ("err", 0) if b["exit"] == 3 else ("ok", b.get("ntasks", 0))
+            if want != got:
+                out.disagreement("collected tasks differ from Model/Session.v", {"seq": s, "build": i, "impl": got, "model": want, "raw": str(mres)})
         # same outcomes as fresh processes
         for i, (b, f) in enumerate(zip(a["builds"], r["fresh"])):
             if "raised" in b or "error" in f:
                 continue
             if (b["exit"], b["outcomes"]) != (f["exit"], f["outcomes"]):
                 out.violation("a build in the same process gives other outcomes than in a fresh process",
-                              {"seq": s, "build": i, "inproc": b, "fresh": f}, finding_matchers=("F11",) if is_f11 else ())
+                              {"seq": s, "build": i, "inproc": b, "fresh": f}, finding_matchers=("F11",) if (s[i]["kind"] in uses_task and any(x["kind"] == s[i]["kind"] for x in s[:i])) else ())
     out.coverage["programs"] = len(flat)
     out.sample({"sequence": flat[0]})
